@@ -8,7 +8,7 @@ import WhatIs.Gen.Jwt
 /-
   Model/Jwt.lean — mirror of internal/file/jwt.go (`ParseJWT`, `HeaderAttributes`, `PayloadAttributes`, the
   converters `str`, `sigAlg`, `unixTime`) and `JWTData` (internal/file/parsers.go) over the REGENERATED
-  tables `Gen.jwtParams`, `Gen.jwtParamOrder`, `Gen.jwtAlgNames`.  `encoding/json` is an oracle parameter:
+  tables `Gen.jwtParams`, `Gen.jwtParamOrder`, `Gen.jwtHeaderShown`, `Gen.jwtPayloadShown`, `Gen.jwtAlgNames`.  `encoding/json` is an oracle parameter:
   what `json.Unmarshal(bytes, &map[string]any)` yields.
 -/
 namespace WhatIs.Jwt
@@ -84,18 +84,23 @@ def convert (conv : String) (v : JVal) : Option Bytes :=
 def paramOf (k : String) : Option (String × String) :=
   (Gen.jwtParams.find? (fun r => r.1 = k)).map fun r => (r.2.1, r.2.2)
 
-/-- `HeaderAttributes` / `PayloadAttributes` with the fixed emission order -/
-def attributesOf (m : List (Bytes × JVal)) : List Attr :=
-  Gen.jwtParamOrder.filterMap fun k =>
+/-- `jwtAttributes(m, order)`: the registered names of `order` that are present in the object, in that order -/
+def attributesOfIn (order : List String) (m : List (Bytes × JVal)) : List Attr :=
+  order.filterMap fun k =>
     match paramOf k, m.lookup (k.toList.map Char.toNat) with
     | some (descr, conv), some v => (convert conv v).map fun s => ⟨descr.toList.map Char.toNat, s⟩
     | _, _ => none
+
+/-- `HeaderAttributes`: the names the code looks for in the header (regenerated: header parameters and replicated claims) -/
+def headerAttributes (m : List (Bytes × JVal)) : List Attr := attributesOfIn Gen.jwtHeaderShown m
+/-- `PayloadAttributes`: the names the code looks for in the payload (regenerated: registered claims only) -/
+def payloadAttributes (m : List (Bytes × JVal)) : List Attr := attributesOfIn Gen.jwtPayloadShown m
 
 /-- `JWTData` -/
 def jwtData (json : Bytes → JDoc) (data : Bytes) : Res Info := do
   let j ← parseJWT json data
   pure (.mk (strBytes "JSON Web Token (JWT)")
-    (attributesOf j.header ++ attributesOf j.payload ++
+    (headerAttributes j.header ++ payloadAttributes j.payload ++
       [⟨strBytes "Signature", Spec.B64.encode true false j.signature⟩]) [])
 
 def isJWT (json : Bytes → JDoc) (data : Bytes) : Bool := (parseJWT json data).isOk
